@@ -66,7 +66,7 @@ Definition hs_step (s : hs) (e : sevent) : hs * list sout :=
     else (s, [])            (* Separate.req (and anything else): no branch *)
   | EvData system w _ =>
     if negb (is_selected s) then (s, [OutReject system 4])
-    else if queued s system && negb w then (unqueue s system, [OutResolve system]) else (s, [OutDeliver system])
+    else if queued_as s system ST_DATA && negb w then (unqueue s system, [OutResolve system]) else (s, [OutDeliver system])   (* HsmsProtocol._is_reply_to_open_transaction *)
   end.
 
 Fixpoint hs_run (s : hs) (es : list sevent) : hs * list (list sout) :=
